@@ -181,7 +181,7 @@ def updateVolumes (c : Core) (s : Nat) (actual : List VInfo) : Core × List VInf
 /-- DeltaUpdateVolumes, one deletion message `v` (a short message: id + layout key): only a volume
     registered on the message's disk is deleted, and the decrement takes the remote flag of the
     REGISTERED volume; a message for a volume that is not registered changes nothing
-    (repaired in /repo by f55c35ee and 4838d419; before, every message decremented and the remote
+    (repaired in /repo by bf7edee2 and fb6f0331; before, every message decremented and the remote
     flag came from the message) -/
 def delReg (c : Core) (s : Nat) (v : VInfo) : Core :=
   match c.vols s v.key.disk v.id with
